@@ -33,7 +33,7 @@ ASSUMPTIONS = ["a clone or an unregistered wrapper is judged only right after it
 TIMEOUT = 900
 SPECIAL = ["late_ref", "late_def", "to_plain", "to_memento"]
 RUNTIME = ["clone", "wrapper", "query_subset"]
-EDITS = ["const", "tconst", "tperm", "builtin", "sconst", "nested_const", "gx_const", "op", "swap", "add_param", "default", "kwdefault", "add_call",
+EDITS = ["const", "tconst", "tperm", "builtin", "sconst", "nested_const", "gx_const", "lamdefault", "op", "swap", "add_param", "default", "kwdefault", "add_call",
          "remove_call", "retarget_call", "retarget_alias", "var_value", "var_mutate"]
 
 
